@@ -46,6 +46,14 @@ def own_cases(tier, rng):
                 if tier == "quick" and rng.random() < 0.5: continue
                 cid = "owned/%s/n%d/op%d" % (tk, n, op)
                 cases.append(Case(cid, 'VF_CASE("%s", c07::owned<%s,%d,%d>)' % (cid, t, n, op), dict(type=t, n=n, op=op), size=n))
+    for tk, t in TYPES.items():
+        for n in ([3, 4, 8, 16, 24, 32] if tier == "quick" else [1, 2, 3, 4, 5, 7, 8, 9, 15, 16, 17, 24, 32, 33, 48, 64]):
+            for rank in (1, 3):
+                for op in (0, 1):
+                    if rank == 1 and op == 1: continue      # dynamic slices of rank-1/2 maps with tensor right-hand sides are rejected by the library everywhere
+                    if tier == "quick" and rng.random() < 0.35: continue
+                    cid = "mapview/%s/r%d/n%d/op%d" % (tk, rank, n, op)
+                    cases.append(Case(cid, 'VF_CASE("%s", c07::mapview<%s,%d,%d,%d>)' % (cid, t, n, rank, op), dict(type=t, n=n, rank=rank, op=op), size=n))
     for tk in ("f", "i", "d"):
         for (M, N) in [(1, 1), (2, 3), (4, 4), (3, 7)]:
             cid = "bounds/%s/%dx%d" % (tk, M, N)
